@@ -176,6 +176,10 @@ def _wire_vars(ctx: Context, q: str) -> set[str]:
             out.add(tgt)
         if tgt and isinstance(val, ast.Subscript) and isinstance(ctx.const(f, val.slice, None) if not isinstance(val.slice, ast.Slice) else None, int) and isinstance(val.value, ast.Attribute) and "manufacturer" in val.value.attr:
             out.add(tgt)
+        # the payload used in place, without a local: <manufacturer data>[<company id>][i] - the inner subscript is the buffer
+        if isinstance(x, ast.Subscript) and isinstance(x.value, ast.Subscript) and not isinstance(x.value.slice, ast.Slice) \
+                and isinstance(ctx.const(f, x.value.slice, None), int) and "manufacturer" in " ".join(ast.unparse(x.value.value).split()):
+            out.add(" ".join(ast.unparse(x.value).split()))
     return out
 
 
